@@ -47,6 +47,7 @@ func NewURNs(urnz []urns.URN, modification URNsModification) *URNsModifier {
 
 // Apply applies this modification to the given contact
 func (m *URNsModifier) Apply(eng flows.Engine, env envs.Environment, sa flows.SessionAssets, contact *flows.Contact, log flows.EventCallback) bool {
+	before := contact.URNs()
 	modified := false
 
 	if m.Modification == URNsSet {
@@ -67,7 +68,8 @@ func (m *URNsModifier) Apply(eng flows.Engine, env envs.Environment, sa flows.Se
 		}
 	}
 
-	if modified {
+	// setting the URNs clears and re-adds them, so check that we actually ended up with something different
+	if modified && !contact.URNs().Equal(before) {
 		log(events.NewContactURNsChanged(contact.URNs().RawURNs()))
 		return true
 	}
